@@ -142,6 +142,8 @@ impl SyscallStubs for WorldStubs {
             system_process(&callee_infos, &instruction.data)
         } else if pid == marginfi::constants::KAMINO_PROGRAM_ID {
             kamino_process(&callee_infos, &instruction.data)
+        } else if pid == marginfi::constants::DRIFT_PROGRAM_ID {
+            drift_process(&callee_infos, &instruction.data)
         } else {
             Err(ProgramError::IncorrectProgramId)
         }
@@ -241,6 +243,94 @@ fn kamino_process(accounts: &[AccountInfo], data: &[u8]) -> ProgramResult {
         rs.available_amount = (rs.available_amount as i128 - liq) as u64;
         rs.mint_total_supply = (total_col - col) as u64;
         ob.deposits[0].deposited_amount = (ob.deposits[0].deposited_amount as i128 - col) as u64;
+    }
+    Ok(())
+}
+
+// ---------------------------------------------------------------------------------------------
+// Drift stand-in (same status as the Kamino one): update_spot_market_cumulative_interest, deposit, withdraw with Drift's
+// documented effect on the accounts marginfi reads afterwards. Scaled balances follow Drift's `get_spot_balance`:
+// balance = floor(amount x 10^(19 - decimals) / cumulative_deposit_interest), plus one when rounding up (withdrawals) and
+// the result is not zero; a withdrawal releases exactly the requested token amount. DRIFT_SKEW_* make it misbehave.
+// ---------------------------------------------------------------------------------------------
+pub static DRIFT_SKEW_SCALED: AtomicI64 = AtomicI64::new(0);
+pub static DRIFT_SKEW_TOKENS: AtomicI64 = AtomicI64::new(0);
+
+fn drift_process(accounts: &[AccountInfo], data: &[u8]) -> ProgramResult {
+    use drift_mocks::state::{MinimalSpotMarket, MinimalUser, SpotBalanceType};
+    const DEPOSIT: [u8; 8] = [242, 35, 198, 137, 82, 225, 242, 182];
+    const WITHDRAW: [u8; 8] = [183, 18, 70, 156, 148, 109, 161, 34];
+    const UPDATE: [u8; 8] = [39, 166, 139, 243, 158, 165, 155, 225];
+    if data.len() < 8 {
+        return Err(ProgramError::InvalidInstructionData);
+    }
+    let drift = marginfi::constants::DRIFT_PROGRAM_ID;
+    if data[..8] == UPDATE {
+        let market = accounts.get(1).ok_or(ProgramError::NotEnoughAccountKeys)?;
+        if *market.owner != drift { return Err(ProgramError::IllegalOwner); }
+        let mut md = market.try_borrow_mut_data()?;
+        let m: &mut MinimalSpotMarket = bytemuck::from_bytes_mut(&mut md[8..8 + std::mem::size_of::<MinimalSpotMarket>()]);
+        m.last_interest_ts = CLOCK_TS.load(Ordering::SeqCst) as u64;
+        return Ok(());
+    }
+    let is_deposit = data[..8] == DEPOSIT;
+    if !is_deposit && data[..8] != WITHDRAW {
+        return Err(ProgramError::InvalidInstructionData);
+    }
+    if data.len() < 8 + 2 + 8 + 1 { return Err(ProgramError::InvalidInstructionData); }
+    let market_index = u16::from_le_bytes([data[8], data[9]]);
+    let amount = rd_u64(data, 10)? as i128;
+    let named = if is_deposit { 7 } else { 8 };
+    if accounts.len() < named + 1 { return Err(ProgramError::NotEnoughAccountKeys); }
+    let (user, authority, market_vault) = (&accounts[1], &accounts[3], &accounts[4]);
+    let user_tok = if is_deposit { &accounts[5] } else { &accounts[6] };
+    if !authority.is_signer { return Err(ProgramError::MissingRequiredSignature); }
+    // the spot market is among the remaining accounts: the one owned by Drift with the right discriminator and index
+    let market = accounts[named..]
+        .iter()
+        .find(|a| *a.owner == drift && a.data_len() == 8 + std::mem::size_of::<MinimalSpotMarket>() && {
+            let d = a.try_borrow_data().unwrap();
+            let m: &MinimalSpotMarket = bytemuck::from_bytes(&d[8..8 + std::mem::size_of::<MinimalSpotMarket>()]);
+            m.market_index == market_index
+        })
+        .ok_or(ProgramError::Custom(6098))?; // spot market not found among the remaining accounts
+    if *user.owner != drift { return Err(ProgramError::IllegalOwner); }
+    let mut ud = user.try_borrow_mut_data()?;
+    let mut md = market.try_borrow_mut_data()?;
+    let u: &mut MinimalUser = bytemuck::from_bytes_mut(&mut ud[8..8 + std::mem::size_of::<MinimalUser>()]);
+    let m: &mut MinimalSpotMarket = bytemuck::from_bytes_mut(&mut md[8..8 + std::mem::size_of::<MinimalSpotMarket>()]);
+    if u.authority != *authority.key || m.vault != *market_vault.key { return Err(ProgramError::Custom(6099)); }
+    if (m.last_interest_ts as i64) < CLOCK_TS.load(Ordering::SeqCst) { return Err(ProgramError::Custom(6100)); } // stale market
+    let cum = u128::from_le_bytes(m.cumulative_deposit_interest) as i128;
+    if cum <= 0 || m.decimals > 19 { return Err(ProgramError::ArithmeticOverflow); }
+    use num_bigint::BigInt;
+    let prec = BigInt::from(10u8).pow(19 - m.decimals);
+    let floor_scaled = i128::try_from(BigInt::from(amount) * &prec / BigInt::from(cum)).map_err(|_| ProgramError::ArithmeticOverflow)?;
+    let idx = if market_index == 0 { 0 } else { 1 };
+    let pos = &mut u.spot_positions[idx];
+    let dep_total = u128::from_le_bytes(m.deposit_balance) as i128;
+    if is_deposit {
+        let scaled = floor_scaled + DRIFT_SKEW_SCALED.load(Ordering::SeqCst) as i128;
+        if scaled < 0 { return Err(ProgramError::ArithmeticOverflow); }
+        tok_amount_adjust(user_tok, -amount)?;
+        tok_amount_adjust(market_vault, amount)?;
+        pos.scaled_balance = u64::try_from(pos.scaled_balance as i128 + scaled).map_err(|_| ProgramError::ArithmeticOverflow)?;
+        pos.market_index = market_index;
+        pos.balance_type = SpotBalanceType::Deposit;
+        pos.cumulative_deposits = pos.cumulative_deposits.saturating_add(amount as i64);
+        m.deposit_balance = ((dep_total + scaled) as u128).to_le_bytes();
+    } else {
+        let scaled = floor_scaled + if floor_scaled != 0 { 1 } else { 0 } + DRIFT_SKEW_SCALED.load(Ordering::SeqCst) as i128;
+        if scaled < 0 || scaled > pos.scaled_balance as i128 || pos.market_index != market_index {
+            return Err(ProgramError::InsufficientFunds);
+        }
+        let out = amount + DRIFT_SKEW_TOKENS.load(Ordering::SeqCst) as i128;
+        if out < 0 { return Err(ProgramError::InsufficientFunds); }
+        tok_amount_adjust(market_vault, -out)?;
+        tok_amount_adjust(user_tok, out)?;
+        pos.scaled_balance = (pos.scaled_balance as i128 - scaled) as u64;
+        pos.cumulative_deposits = if pos.scaled_balance == 0 { 0 } else { pos.cumulative_deposits.saturating_sub(amount as i64) };
+        m.deposit_balance = ((dep_total - scaled).max(0) as u128).to_le_bytes();
     }
     Ok(())
 }
